@@ -758,6 +758,35 @@ func main() {
 			}
 		}
 	}
+	if r.ReplayPath != "" {
+		var rep struct {
+			Height      uint64   `json:"height"`
+			Round       int      `json:"round"`
+			Pol         int      `json:"pol_round"`
+			Node        int      `json:"node"`
+			Corruptions []string `json:"corruptions"`
+		}
+		r.LoadReplay(&rep)
+		var sel []corruption
+		for _, n := range rep.Corruptions {
+			for _, c := range cors {
+				if c.name == n {
+					sel = append(sel, c)
+				}
+			}
+		}
+		if len(sel) != len(rep.Corruptions) {
+			vk.Fatalf("replay: unknown corruption in %v", rep.Corruptions)
+		}
+		for i := 0; i < 5; i++ {
+			res := runCase(f, rep.Node, rep.Height, rep.Round, rep.Pol, sel)
+			fmt.Printf("replay run %d: prevoted=%v precommitted=%v committed=%v applied=%v refValid=%v repoValid=%v\n", i, res.prevoted, res.precommitted, res.committed, res.applied, res.refOK, res.repoOK)
+			if res.viol[0] != "" {
+				r.Violation(res.viol[0], res.viol[1], rep)
+			}
+		}
+		r.Finish()
+	}
 	var mu sync.Mutex
 	done, applicable, invalidBlocks, prevotedValid, rejected := 0, 0, 0, 0, 0
 	notes := map[string]bool{}
